@@ -10,6 +10,7 @@
   reused) belongs to model M4.
 -/
 import Galaxy.Lemmas.IpamC08
+import Galaxy.Lemmas.PluginRanges
 
 namespace Galaxy.Props.C08
 open Galaxy Galaxy.Ipam
@@ -156,5 +157,40 @@ example : sortPools [poolHi, poolLo] = [poolHi, poolLo] ∧ DisjointConf [poolHi
 theorem walk_unsorted_unclipped_counter :
     8 ∈ walkConfiguredG false false [poolHi, poolLo] [{ first := 4, last := 7 }] ∧
     8 ∉ walk [{ first := 4, last := 7 }] := by decide
+
+end Galaxy.Props.C08
+
+/-! ## the bind-level clause (plugin model M4, proved by the plugin work package)
+
+  "A pod that requests k IP ranges is BOUND with exactly k distinct IPs, the i-th inside the i-th requested range …,
+   reported in request order."  `bind` is the model of the scheduler plugin's Bind (Filter's choice `ch`, reuse of the
+   addresses the pod's key already owns, `allocateInSubnetsAndRanges` for the others, binding annotation). -/
+
+namespace Galaxy.Props.C08
+open Galaxy Galaxy.Plugin
+
+/-- tie to the code: `allocateIP` builds its reply in REQUEST order (regenerated fact of the plugin translator) -/
+theorem fact_bind_reply_order : Generated.Plugin.bindReplyInRequestOrder = true := fact_bind_reply_in_request_order
+
+/-- "bound with exactly k … IPs, the i-th inside the i-th requested range, reported in request order": after every history
+    within the plugin model's scope, a Bind (any choice, any fault plan) that answers ok for a pod requesting k ≥ 1 range
+    lists writes a binding annotation with exactly k entries, the i-th an address of the i-th requested range list —
+    whatever subset of the lists the pod's key owned before (none, all, a LATER one without an earlier one, …). -/
+theorem bind_reports_request_order (c : Conf) (ms : List Move) (hok : allAssumed facts (init c) ms = true)
+    (ns name : String) (uid : Nat) (node : String) (ch : Choice) (f pf : Nat) (pod : Pod)
+    (hl : Tbl.get (run facts (init c) ms).vPods (ns, name) = some pod) (hne : pod.ranges ≠ [])
+    (hb : (step facts (run facts (init c) ms) (.bind ns name uid node ch f pf)).2.res = .ok) :
+    All₂ (fun rs hd => hd.ip ∈ enumRanges rs) pod.ranges
+        (step facts (run facts (init c) ms) (.bind ns name uid node ch f pf)).2.ips ∧
+    (step facts (run facts (init c) ms) (.bind ns name uid node ch f pf)).2.ips.length = pod.ranges.length := by
+  have h := bind_reports_request_order_after_history c ms hok ns name uid node ch f pf pod hl hne hb
+  exact ⟨h, h.length_eq.symm⟩
+
+set_option maxRecDepth 100000 in
+/-- not vacuous: a pod which owns an address of its SECOND range list only (from an earlier incarnation) is bound with
+    [a new address of list 1, the owned address of list 2] — request order, not "reused first" -/
+example : allAssumed facts (init rangesConf) rangesHistory = true ∧
+    ((run facts (init rangesConf) rangesHistory).pods.get ("ns1", "a-0")).map (·.ips) = some [168427522, 168427526] :=
+  bind_reports_request_order_example
 
 end Galaxy.Props.C08
